@@ -113,7 +113,9 @@ def c17(run):
 
 
 def c20(run):
-    run.scen("MC_Limits", {})
+    run.scen("MC_Limits", {})                                            # VOL / CLM size vectors (sparse files), size-prefixed containers
+    run.scen("MC_LimitsPrt", {"MaxLayers": 130})                         # every layer-list length 0..130 against every 7-bit count
+    run.scen("MC_Clm", {"MaxFiles": 1}, own=by_prefix("clm_create", "scenario"), name="MC_Clm (names of 8 and 9 characters)")
 
 
 # ======================================================================================================
@@ -254,7 +256,61 @@ def c14(run):
 # determinism, names
 
 def c18(run):
-    raise MachineryError("not built yet")
+    """Every serialisation / parsing scenario is executed in environments that differ in compiler, heap fill, stack fill and
+    address-space layout (and, inside the recorder, in input order and path spelling); Trace_Determinism requires every
+    observation of a scenario to reproduce the first one."""
+    from concurrent.futures import ThreadPoolExecutor
+    builds = [("g++", "gcc0"), ("clang++", "clang0")]
+    fills = [0, 165, 255]
+    jobs = []
+    for cxx, tag in builds:
+        exe = run.harness("det_rec", cxx=cxx, extra_flags="-fno-inline", opt="-O0", tag=tag)
+        for fill in fills:
+            jobs.append((tag, fill, False, exe))
+        jobs.append((tag, 90, True, exe))                       # one more with address-space randomisation switched off
+    if run.thorough:
+        exe = run.harness("det_rec", cxx="g++", extra_flags="", opt="-O2", tag="gcc2")
+        jobs += [("gcc2", f, False, exe) for f in fills]
+    work = vlib.shm_dir()
+
+    def one(job):
+        tag, fill, noaslr, exe = job
+        env = dict(os.environ, MALLOC_PERTURB_=str(fill))
+        name = f"{tag}-fill{fill}" + ("-noaslr" if noaslr else "")
+        cmd = (["setarch", "-R"] if noaslr else []) + [exe, "--env", name, "--paint", str(fill), "--workdir", os.path.join(work, name)]
+        p = subprocess.run(["timeout", "300"] + cmd, capture_output=True, text=True, env=env)
+        if p.returncode != 0 and noaslr and "setarch" in (p.stderr or ""):
+            return name, None                                                            # personality() not permitted here: skip this environment
+        if p.returncode != 0:
+            raise MachineryError(f"determinism recorder failed in environment {name}: rc={p.returncode} {p.stderr[-800:]}")
+        return name, [json.loads(l) for l in p.stdout.split("\n") if l.startswith("{")]
+    with ThreadPoolExecutor(max_workers=len(jobs)) as ex:
+        results = [r for r in ex.map(one, jobs)]
+    by_sc, envs = {}, []
+    for name, evs in results:
+        if evs is None:
+            continue
+        envs.append(name)
+        for e in evs:
+            if e.get("e") == "Observe":
+                by_sc.setdefault(e["sc"], []).append(e)
+    if len(envs) < 6 or not by_sc:
+        raise MachineryError("too few environments produced observations: %s" % envs)
+    log = os.path.join(vlib.scratch(), "determinism.ndjson")
+    with open(log, "w") as f:
+        for sc, evs in sorted(by_sc.items()):
+            f.write(json.dumps({"e": "Reset", "scenario": sc}) + "\n")
+            for e in evs:
+                f.write(json.dumps(e) + "\n")
+    run.sample({"scenario": sorted(by_sc)[0], "observations": by_sc[sorted(by_sc)[0]][:3]})
+    run.part("determinism recorder", environments=envs, scenarios=len(by_sc), observations=sum(len(v) for v in by_sc.values()))
+    v = validate(run, "Trace_Determinism", log, "C18", what="scenario")
+    # name the scenario in the signature so that a different non-deterministic scenario is a different finding
+    for m in run.mismatches:
+        mm = re.search(r'"sc": "([^"]+)"', m["detail"])
+        if mm:
+            m["site"] = "C18." + mm.group(1)
+            m["kind"] = "differs-between-environments"
 
 
 def validate(run, module, log, site_prefix, constants=None, what="recorded execution"):
@@ -316,4 +372,10 @@ def c19(run):
 
 
 def c05(run):
-    raise MachineryError("not built yet")
+    # VOL images: field-aware fault model (TLC) -> call scripts on long-lived and fresh objects (recorded) -> loose contract (TLC)
+    for module in ("MC_VolFault", "MC_ClmFault"):
+        g, r = run.scen(module, {}, log=True, max_crashes=200)
+        lines = [l for l in open(r["log"])] if r["log"] else []
+        if not lines:
+            raise MachineryError(module + ": nothing was recorded")
+        validate(run, "Trace_ArchiveRobust", r["log"], "C05." + ("vol" if "Vol" in module else "clm"), what="call script on faulted image")
